@@ -29,8 +29,9 @@ FOREIGN_TYPES = [("ex", "http://a/", "mytype"), ("xsd", XSD.uri, "decimal"), ("x
 
 
 class Gen:
-    def __init__(self, seed):
+    def __init__(self, seed, extra_locals=()):
         self.rng = random.Random(seed)
+        self.locals = LOCALS + list(extra_locals)
 
     # -- primitives
     def choice(self, xs):
@@ -46,7 +47,7 @@ class Gen:
         return Namespace(p, u)
 
     def local(self):
-        return self.rng.choice(LOCALS)
+        return self.rng.choice(self.locals)
 
     def qname(self, nss=None):
         """a QualifiedName object; with `nss` mostly drawn from the given namespaces"""
